@@ -8,6 +8,7 @@ FLOOR = 34      # 70% of the 49 obligation instances derived on the tree the rul
 EXPLANATION = ('Drop for Db runs shutdown -> join x4 -> kill_logs -> unlock; kill_logs (no background error) drains: enact, flush, process all '
                'commits, enact, flush, enact, flush columns + truncate, delete pool; every drain loop exits only when its callee reports no more work; '
                'worker loops keep running while work remains even after shutdown was requested; queues are FIFO; a log reaches the applier only after sync (C12.1).')
+EXPLANATION += ' Added: a log found at open is fdatasynced before replay; a finished reader is never left installed; the log worker keeps going while a commit is (re)queued; known finding F59 (a postponed removal loses its place in the log order).'
 ASSUMPTIONS = ['content equality after reopen is not decided', 'the synced lower bound relies on C12 obligation 1 (sync before hand-over)', 'unwind edges ignored']
 TRUSTED = ['rustc MIR construction (nightly)', 'pdb-facts driver', 'rule engine /verif/rules', 'anchor tables in props/C03.py']
 
